@@ -92,7 +92,9 @@ where
         &self,
         symbol: impl Borrow<Self::Symbol>,
     ) -> Option<(Self::Probability, <Self::Probability as BitArray>::NonZero)> {
-        let symbol = symbol.borrow().as_();
+        // Use a checked conversion so that symbols that don't fit into `Probability` are
+        // rejected (rather than truncated) *before* we compare them to `self.last_symbol`.
+        let symbol: Probability = num_traits::cast(*symbol.borrow())?;
         let left_cumulative = symbol.wrapping_mul(&self.probability_per_bin.get());
 
         #[allow(clippy::comparison_chain)]
